@@ -78,6 +78,12 @@ def decompressed_frame(m: dict, b: bytes) -> bytes:
     return struct.pack('<I', m['id_width'] + len(body)) + b[4:hdr] + body
 
 
+def has_string(lay: dict, t) -> bool:
+    k = L.kind_of(lay, t)
+    return k[0] == 'str' or (k[0] == 'array' and has_string(lay, k[1])) or \
+        (k[0] == 'rec' and any(has_string(lay, ft) for _, ft in lay['records'][k[1]]))
+
+
 def impl_case(play: dict, m: dict, vals: list) -> dict:
     """Run one in-domain message through the implementation; evaluate the property text."""
     res = {'class': m['name'], 'vals': vals, 'bytes': None, 'dec': None, 'problems': []}
@@ -306,7 +312,7 @@ def coq_obf(per_key, explicit, garb, maxlen: int = 600) -> list:
                       'Definition cases : list (nat * (bytes * bytes * bytes)) := [\n' + ';\n'.join(rows) + '].\n'
                       'Definition bad_len (c : bytes * bytes * bytes) (n : nat) : bool := let \'(k, D, E) := c in\n'
                       ' negb (andb (bytes_eqb (obf_encode k (firstn n D)) (firstn (4 + n) E)) (bytes_eqb (obf_decode (firstn (4 + n) E)) (firstn n D))).\n'
-                      f'Eval vm_compute in (flat_map (fun c => map (fun n => (fst c * 1000 + n)%nat) (filter (bad_len (snd c)) (seq 0 {maxlen + 1}))) cases).\n')
+                      f'Eval vm_compute in (flat_map (fun c => map (fun n => (N.of_nat (fst c) * 1000 + N.of_nat n)%N) (filter (bad_len (snd c)) (seq 0 {maxlen + 1}))) cases).\n')
     rows = []
     i = 0
     for key, data, e, d in explicit:
@@ -319,7 +325,7 @@ def coq_obf(per_key, explicit, garb, maxlen: int = 600) -> list:
                   'Definition cases : list (nat * (bytes * bytes * bytes * bytes)) := [\n' + ';\n'.join(rows) + '].\n'
                   'Definition bad (c : bytes * bytes * bytes * bytes) : bool := let \'(k, d, e, dd) := c in\n'
                   ' negb (andb (bytes_eqb (if Nat.eqb (List.length k) 4 then obf_encode k d else e) e) (bytes_eqb (obf_decode e) dd)).\n'
-                  'Eval vm_compute in (map (fun i => (900000 + i)%nat) (indices_where bad cases)).\n')
+                  'Eval vm_compute in (map (fun i => (900000 + N.of_nat i)%N) (indices_where bad cases)).\n')
     return shards
 
 
@@ -393,12 +399,13 @@ def vectors_check(run: Run, play: dict, cur, pin: dict):
     for v in vec:
         m = pm[v['class']]
         data = bytes.fromhex(v['hex'])
+        norm = (lambda b: decompressed_frame(m, b)) if m['compressed'] else (lambda b: b)
         if v['dir'] == 'serialize':
             try:
-                ref = L.ref_enc_msg(play, m, v['vals'], compress=zlib.compress)
+                ref = L.ref_enc_msg(play, m, v['vals'], compress=lambda x: x)
             except Exception as e:
                 ref = None
-            if ref != data:
+            if ref != norm(data):
                 bad_anchor += 1
                 if bad_anchor <= 2:
                     run.add_broken('anchor:pinned-layout-vs-maintainer-vectors',
@@ -408,7 +415,7 @@ def vectors_check(run: Run, play: dict, cur, pin: dict):
             obj = L.make_obj(play, m, v['vals'])
             if v['dir'] == 'serialize':
                 got = obj.serialize()
-                if got != data:
+                if norm(got) != norm(data):
                     run.add_finding(Finding(f'maintainer-vector:{v["class"]}', f'{v["test"]}: serialize() no longer produces the asserted bytes',
                                             {'kind': 'vector', 'test': v['test'], 'class': v['class'], 'vals': v['vals'], 'hex': v['hex']},
                                             observed=got.hex(), expected=v['hex']))
@@ -428,23 +435,31 @@ def vectors_check(run: Run, play: dict, cur, pin: dict):
 
 def coq_vectors(vec: list, cur: dict, play: dict) -> list:
     cm, pm = L.msg_by_name(cur), L.msg_by_name(play)
-    rows = []
+    rows, zc, zd = [], [], []
     for i, v in enumerate(vec):
         name = v['class']
         if name not in cm or [f['name'] for f in cm[name]['fields']] != [f['name'] for f in pm[name]['fields']]:
             continue
         m = cm[name]
+        data = bytes.fromhex(v['hex'])
         if m['compressed']:
-            continue
-        rows.append(f' ({i}%nat, ({L.ident(name)}, {L.coq_msg(cur, m, v["vals"])}, {L.coq_bytes(bytes.fromhex(v["hex"]))}, '
+            payload = data[4 + m['id_width']:]
+            try:
+                body = zlib.decompress(payload)
+            except Exception:
+                continue
+            zc.append((body, payload))
+            zd.append((payload, body))
+        rows.append(f' ({i}%nat, ({L.ident(name)}, {L.coq_msg(cur, m, v["vals"])}, {L.coq_bytes(data)}, '
                     f'{"true" if v["dir"] == "serialize" else "false"}))')
     shards = []
-    for k in range(0, len(rows), 150):
+    for k in range(0, len(rows), 110):
         shards.append(L.CASES_PRELUDE +
-                      'Definition idz (x : bytes) := x.\nDefinition nod (x : bytes) : option bytes := Some x.\n'
-                      'Definition cases : list (nat * (schema * list value * bytes * bool)) := [\n' + ';\n'.join(rows[k:k + 150]) + '].\n'
+                      f'Definition zc (x : bytes) : bytes := match lookup {L.coq_table(zc)} x with Some y => y | None => x end.\n'
+                      f'Definition zd (x : bytes) : option bytes := match lookup {L.coq_table(zd)} x with Some y => Some y | None => Some x end.\n'
+                      'Definition cases : list (nat * (schema * list value * bytes * bool)) := [\n' + ';\n'.join(rows[k:k + 110]) + '].\n'
                       'Definition bad (c : schema * list value * bytes * bool) : bool := let \'(s, m, b, ser) := c in\n'
-                      ' negb (if ser then opt_eqb bytes_eqb (enc_msg idz s m) (Some b) else opt_eqb values_eqb (dec_msg nod s b) (Some m)).\n'
+                      ' negb (if ser then opt_eqb bytes_eqb (enc_msg zc s m) (Some b) else opt_eqb values_eqb (dec_msg zd s b) (Some m)).\n'
                       'Eval vm_compute in (indices_where bad cases).\n')
     return shards
 
@@ -495,7 +510,12 @@ def run(run: Run):
     cases = []
     for m in play['messages']:
         n = per_class * (6 if (m['name'] in focus or (diffs and not focus)) else 1)
-        modes = ['full', 'none', 'edge', 'mixed']
+        # classes with strings get an all-non-ASCII case; classes whose strings sit inside arrays of records
+        # (FileData / DirectoryData / ... : hand-optimised serialize_into paths) get three of them
+        nested = any(isinstance(f['type'], dict) and has_string(play, f['type']) for f in m['fields'])
+        anystr = any(has_string(play, f['type']) for f in m['fields'])
+        modes = ['full', 'none', 'edge'] + (['nonascii'] if anystr else ['mixed']) + (['nonascii', 'nonascii'] if nested else [])
+        n = max(n, len(modes))
         for i in range(n):
             mode = modes[i] if i < len(modes) else 'mixed'
             vals = L.gen_message(run.rng, play, m, mode)
@@ -516,6 +536,21 @@ def run(run: Run):
         if ref_obf_encode(key, plain) != obf:
             run.add_broken('anchor:pinned-obfuscation-vs-maintainer-vectors', f'reference encoder disagrees with test vector {obf.hex()}')
 
+    for keyh, datah, wireh in pin.get('obfuscation_vectors_hex', []):
+        from aioslsk.protocol import obfuscation
+        key, data, wire = bytes.fromhex(keyh), bytes.fromhex(datah), bytes.fromhex(wireh)
+        run.case({'obf-vector': [keyh, len(data)]}, kind='obf-pinned-vector')
+        if ref_obf_encode(key, data) != wire:
+            run.add_broken('anchor:pinned-obfuscation-vectors', f'reference encoder disagrees with pinned wire vector (key {keyh}, {len(data)} bytes)')
+        try:
+            got, back = obfuscation.encode(data, key=key), obfuscation.decode(wire)
+        except Exception as ex:
+            got, back = None, None
+        if got != wire or back != data:
+            run.add_finding(Finding('obf-pinned-wire-vector', f'obfuscation of a {len(data)}-byte payload no longer produces / accepts the pinned wire bytes '
+                                    '(other clients would read garbage beyond the first differing block)',
+                                    {'kind': 'obf', 'key': keyh, 'data': datah}, observed=got.hex()[:300] if got else None, expected=wireh[:300]))
+
     # --- strings
     scases = string_cases(run, 80 if run.tier == 'quick' else 1500)
 
@@ -535,8 +570,16 @@ def run(run: Run):
         ]
         nb = eval_groups(run, 'c01', groups)
         run.cov['traces_validated_against_impl'] = len(cases) + len(vec) + 601 * len(okeys) + len(garb) + len(scases) - nb
-    elif not run.broken:
-        run.add_broken('correspondence:C01', 'model not built')
+    else:
+        if not run.broken:
+            run.add_broken('correspondence:C01', 'model not built')
+        if (common.COQ / 'theories' / 'C01' / 'Eval.vo').exists() and (common.COQ / 'gen' / 'ObfGen.vo').exists():
+            # the translator refused the current source: the last model that did build (= the pinned algorithm)
+            # is still compared with the real encoder / decoder, so that a changed wire format shows as a
+            # concrete disagreement and not only as a refused translation
+            eval_groups(run, 'c01', [('obfuscation.encode/decode vs obf_encode/obf_decode of the last translatable source',
+                                     coq_obf(okeys, oexplicit, garb), 1,
+                                     lambda w, i: (f'key={okeys[i // 1000][0].hex()} payload length {i % 1000}' if i < 900000 else f'explicit/garbage case {i - 900000}'))])
     run.notes.append('exhaustive sub-domains: obfuscation payload lengths 0..600 per key; all 256 single-byte strings')
 
 
